@@ -175,7 +175,7 @@ mech("go-optional-override-ignored",
 
 mech("ts-no-header-override",
  "TS server validates service-level and method-level declarations of the same header both (no method-replaces-service), also across case variants",
- [("C09","hdr/ts/override/*",["valid-headers-rejected","violations-differ"],None),("C09","hdr/ts/order/*override-*",["valid-headers-rejected","violations-differ"],None),("C09","hdr/ts/multi-method/override-in-one-method/method1-*",["valid-headers-rejected","violations-differ"],None)])
+ [("C09","hdr/ts/override/*",["valid-headers-rejected","violations-differ"],None),("C09","hdr/ts/order/*override-*",["valid-headers-rejected","violations-differ"],None),("C09","hdr/ts/multi-method/override-in-one-method/method1-*",["valid-headers-rejected","violations-differ"],None),("C09","hdr/ts/many/*",["valid-headers-rejected","violations-differ"],None)])
 
 mech("openapi-plain-scalar-retyping",
  "enum_value / example strings are written to the YAML document as plain scalars: a value such as .inf is read back as a float and format=json rendering panics",
